@@ -16,6 +16,9 @@ from props.graphfacts import conclude, replay  # noqa: F401
 THEOREMS = ["Rva.include_fault_one_error", "Rva.include_enters_file", "Rva.import_twice_refused", "Rva.toParseErr_located"]
 
 
+NO_FINAL_NL = set()
+
+
 def split_tree(rng, lines, depth=0, counter=None):
     """Cut a list of lines into an include tree. Returns (files dict name->lines, root name,
     map (file, line) -> original line index)."""
@@ -94,11 +97,26 @@ def run(res, tier, seed):
         if len(files) < 2:
             continue
         cases.append((s, files, mapping))
+    # included files that end without a newline in a statement that needs one token of look-ahead
+    # (or is cut short): textual inclusion must treat the end of an included file like an end of line
+    for tail in ["jalr t1", "jalr ra, 0", "lw a0, 4", "sw a0, 4", "addi a0, a0", "jr t1", "add a0, a0, a1",
+                 ".word 1, 2", "beqz a0"]:
+        pre = ["main:", "    la t1, helper", "    li a0, 1", "    li a1, 2"]
+        inc = ["    mv t2, a0", "    " + tail]
+        post = ["    mv a2, a0", "    li a7, 10", "    ecall", "helper:", "    addi a0, a0, 1", "    ret"]
+        flat_lines = pre + inc + post
+        files = {"base.s": pre + ['.include "inc9.s"'] + post, "inc9.s": inc}
+        mapping = {("base.s", k): k for k in range(len(pre))}
+        mapping.update({("inc9.s", k): len(pre) + k for k in range(len(inc))})
+        mapping.update({("base.s", len(pre) + 1 + k): len(pre) + len(inc) + k for k in range(len(post))})
+        cases.append(("\n".join(flat_lines) + "\n", files, mapping))
+        NO_FINAL_NL.add(id(files))
     inputs = []
     for s, files, mapping in cases:
         order = import_order(files)
         fl = [("base.s", "\n".join(files["base.s"]) + "\n")] + \
-             [(k, "\n".join(v) + ("\n" if rng.random() < 0.7 else "")) for k, v in files.items() if k != "base.s"]
+             [(k, "\n".join(v) + ("" if id(files) in NO_FINAL_NL else "\n" if rng.random() < 0.7 else ""))
+              for k, v in files.items() if k != "base.s"]
         inputs.append([("flat.s", s)])
         inputs.append(fl)
     impl, models, bad = correspondence("parse,run", inputs)
